@@ -10,6 +10,7 @@ LEVEL_TEXT = ("Purity monitoring: a deep fingerprint (node identities, parent li
               "diff, lineage, expand, replace_tables, replace_placeholders), applied in random order to the same tree "
               "object, including after calls that raised; copies must share no node, comments list or meta dict with the "
               "original and edits of one must not show in the other.")
+LEVEL_TEXT += (" Every dialect's harvested statements are generated in their own and two other dialects, pretty, transformed and dumped with the argument's deep fingerprint compared before and after.")
 LEVEL_NOTE = "the fingerprint is own code over public attributes plus object identities; trees come from the real parsers"
 TECHNIQUE = "runtime monitoring: before/after deep-fingerprint oracle around non-mutating API calls"
 RULE = ("core-grammar statements (with comments) parsed in sampled dialects x API list in random order; non-trivial = the "
